@@ -47,6 +47,7 @@ func NewGRPCTarget() (*GRPCTarget, error) {
 	t := &GRPCTarget{Addr: ln.Addr().String()}
 	t.srv = grpc.NewServer(grpc.UnaryInterceptor(t.intercept))
 	server.RegisterTargetServiceServer(t.srv, t)
+	registerWKTService(t.srv)
 	reflection.Register(t.srv)
 	go func() { _ = t.srv.Serve(ln) }()
 	return t, nil
